@@ -313,14 +313,19 @@ func (c *Classifier) LoadLicenses(dir string) error {
 	}
 
 	for _, f := range files {
-		relativePath := strings.Replace(f, dir, "", 1)
+		// filepath.Rel is independent of how dir is spelled (trailing separator,
+		// ./ prefix, doubled separators), unlike cutting dir off the walked path.
+		relativePath, err := filepath.Rel(dir, f)
+		if err != nil {
+			return err
+		}
 		sep := fmt.Sprintf("%c", os.PathSeparator)
 		segments := strings.Split(relativePath, sep)
 		if len(segments) < 3 {
 			c.tc.trace("Insufficient segment count for path: %s", relativePath)
 			continue
 		}
-		category, name, variant := segments[1], segments[2], segments[3]
+		category, name, variant := segments[0], segments[1], segments[2]
 		b, err := ioutil.ReadFile(f)
 		if err != nil {
 			return err
